@@ -128,7 +128,13 @@ def pathsStarGo (d : DCtx) (w : World) (config : Option Str) :
           | .ok x =>
             if x.type != s.type then .ok (out, found)
             else if !x.typed then .ok (out, found)
-            else .ok (out ++ [x], found ++ [path])) (.ok ([], found))
+            else
+              -- (repaired, D25) the found Sid itself must match the search:
+              -- `re.match(glob2re(str(search)), str(sid))`
+              match Find.globMatch d.ctx.env s.string x.string with
+              | .error e => .error e
+              | .ok false => .ok (out, found)
+              | .ok true => .ok (out ++ [x], found ++ [path])) (.ok ([], found))
       match step with
       | .error e => .error e
       | .ok (out, found) =>
